@@ -102,8 +102,30 @@ Fixpoint qmat_eqb (a b : qmat) : bool :=
   | _, _ => false
   end.
 
+(* ---------- adjacency_tensor(H, order): T[i0, .., id] = 1 iff (i0, .., id) enumerates, without repetition, the
+   members of an edge of that order (the code writes 1 at every permutation of the member indices); given here
+   flattened in row-major order, as numpy's B.flatten() ---------- *)
+Fixpoint tuples (n k : nat) : list (list nat) :=
+  match k with
+  | O => [[]]
+  | S k' => flat_map (fun i => map (cons i) (tuples n k')) (seq 0 n)
+  end.
+Fixpoint nat_nodupb (l : list nat) : bool :=
+  match l with [] => true | x :: r => negb (existsb (Nat.eqb x) r) && nat_nodupb r end.
+Fixpoint pos_in (x : lbl) (l : list lbl) (i : nat) : nat :=
+  match l with [] => i | y :: r => if lbl_eqb x y then i else pos_in x r (S i) end.
+Definition node_pos (s : hg) (x : lbl) : nat := pos_in x (keys (h_node s)) O.
+Definition enumerates (s : hg) (idx : list nat) (m : list lbl) : bool :=
+  Nat.eqb (length idx) (length m) && nat_nodupb idx &&
+  forallb (fun x => existsb (Nat.eqb (node_pos s x)) idx) m.
+Definition tensor_entry (s : hg) (d : nat) (idx : list nat) : Z :=
+  b2z (existsb (fun kv => Nat.eqb (length (snd kv)) (S d) && enumerates s idx (snd kv)) (h_edge s)).
+Definition adjacency_tensor_flat (s : hg) (d : nat) : list Z :=
+  map (tensor_entry s d) (tuples (length (h_node s)) (S d)).
+
 (* ---------- correspondence ---------- *)
 Inductive mquery : Type :=
+| MTensor (order : nat)
 | MIncidence (order : option nat)
 | MAdjacency (order : option nat) (sv : Z) (weighted : bool)
 | MDegree (order : option nat)
@@ -121,6 +143,7 @@ Definition meval (q : mquery) (s : hg) : list (list Z) :=
   | MIntersection o => intersection_profile s o
   | MCliqueMotif => adjacency' s None 1 true
   | MLaplacian d => laplacian s d
+  | MTensor d => vec_as_matrix (adjacency_tensor_flat s d)
   end.
 
 Fixpoint m_first_bad (s : hg) (qs : list (mquery * list (list Z))) (j : nat) : option nat :=
